@@ -568,25 +568,157 @@ Proof.
   - apply nest_loop_len.
 Qed.
 
+(* the readers count the line breaks they step over: `adv s s' ln ln'` = the reader went from s to s', the text
+   it stepped over is k, and its line counter went up by the number of line breaks (LF) of k *)
+Definition adv (s s' : list ch) (ln ln' : Z) : Prop :=
+  exists k, s = k ++ s' /\ ln' = ln + Z.of_nat (line_breaks k).
+
+Lemma line_breaks_app a b : line_breaks (a ++ b) = (line_breaks a + line_breaks b)%nat.
+Proof. apply count_occ_app. Qed.
+
+Lemma line_breaks_cons c r : Z.of_nat (line_breaks (c :: r)) = (if c =? c_NL then 1 else 0) + Z.of_nat (line_breaks r).
+Proof.
+  unfold line_breaks, c_NL. cbn [count_occ]. destruct (Z.eq_dec c 10) as [E|E].
+  - subst c. rewrite Z.eqb_refl. lia.
+  - replace (c =? 10) with false by lia. lia.
+Qed.
+
+Lemma line_breaks_none s : ~ In 10 s -> line_breaks s = O.
+Proof. intros H. apply count_occ_not_In. exact H. Qed.
+
+Lemma line_breaks_repeat n : line_breaks (repeat 10 n) = n.
+Proof. apply count_occ_repeat_eq. reflexivity. Qed.
+
+Lemma adv_refl s ln : adv s s ln ln.
+Proof. exists []. split; [reflexivity | change (line_breaks []) with O; lia]. Qed.
+
+Lemma adv_trans a b c l1 l2 l3 : adv a b l1 l2 -> adv b c l2 l3 -> adv a c l1 l3.
+Proof.
+  intros (k1 & E1 & L1) (k2 & E2 & L2). exists (k1 ++ k2). split; [subst a b; apply app_assoc|].
+  rewrite line_breaks_app. lia.
+Qed.
+
+Lemma adv_cons c r s' ln ln' : adv r s' (if c =? c_NL then ln + 1 else ln) ln' -> adv (c :: r) s' ln ln'.
+Proof.
+  intros (k & E & L). exists (c :: k). split; [subst r; reflexivity|].
+  rewrite line_breaks_cons. destruct (c =? c_NL); lia.
+Qed.
+
+(* a character that is not a line break, stepped over without counting *)
+Lemma adv_skip c r ln : c <> 10 -> adv (c :: r) r ln ln.
+Proof.
+  intros H. apply adv_cons. replace (c =? c_NL) with false by (unfold c_NL; lia). apply adv_refl.
+Qed.
+
+Lemma get_token_s_adv sp : ~ In 10 sp -> forall s ln,
+  adv s (snd (fst (get_token_s sp s ln))) ln (snd (get_token_s sp s ln)).
+Proof.
+  intros Hsp. induction s as [|c r IH]; intros ln; cbn [get_token_s]; [apply adv_refl|].
+  destruct (prefixb sp (c :: r)) eqn:P.
+  - cbn [fst snd]. exists sp. split; [apply prefixb_true; exact P|].
+    rewrite (line_breaks_none sp Hsp). lia.
+  - specialize (IH (if c =? c_NL then ln + 1 else ln)).
+    destruct (get_token_s sp r (if c =? c_NL then ln + 1 else ln)) as [[t r'] l']. cbn [fst snd] in *.
+    apply adv_cons. exact IH.
+Qed.
+
+Lemma skip_space_f_adv fuel : forall s ln,
+  adv s (fst (skip_space_f fuel s ln)) ln (snd (skip_space_f fuel s ln)).
+Proof.
+  induction fuel as [|f IH]; intros s ln; cbn [skip_space_f]; [apply adv_refl|].
+  destruct s as [|c r]; [apply adv_refl|].
+  destruct ((c =? c_TAB) || (c =? c_SP)) eqn:B.
+  - apply (adv_trans _ r _ ln ln); [|apply IH]. apply adv_skip. unfold c_TAB, c_SP in B. lia.
+  - destruct (c =? c_SLASH); [|apply adv_refl].
+    destruct (prefixb [c_SLASH; c_STAR] (c :: r)); [|apply adv_refl].
+    assert (Hsp : ~ In 10 [c_STAR; c_SLASH]) by (unfold c_STAR, c_SLASH; cbn [In]; lia).
+    pose proof (get_token_s_adv [c_STAR; c_SLASH] Hsp (c :: r) ln) as A.
+    destruct (get_token_s [c_STAR; c_SLASH] (c :: r) ln) as [[t r'] l']. cbn [fst snd] in A.
+    apply (adv_trans _ r' _ ln l'); [exact A | apply IH].
+Qed.
+
+Lemma skip_space_adv s ln : adv s (fst (skip_space s ln)) ln (snd (skip_space s ln)).
+Proof. apply skip_space_f_adv. Qed.
+
+Lemma nest_loop_adv o c s : forall lv ln,
+  adv s (snd (fst (nest_loop o c lv s ln))) ln (snd (nest_loop o c lv s ln)).
+Proof.
+  induction s as [|x r IH]; intros lv ln; cbn [nest_loop]; [apply adv_refl|].
+  destruct (x =? o).
+  - specialize (IH (lv + 1) (if x =? c_NL then ln + 1 else ln)).
+    destruct (nest_loop o c (lv + 1) r (if x =? c_NL then ln + 1 else ln)) as [[t r'] l']. cbn [fst snd] in *.
+    apply adv_cons. exact IH.
+  - destruct (x =? c).
+    + destruct ((if lv >? 0 then lv - 1 else lv) =? 0); [cbn [fst snd]; apply adv_cons; apply adv_refl|].
+      specialize (IH (if lv >? 0 then lv - 1 else lv) (if x =? c_NL then ln + 1 else ln)).
+      destruct (nest_loop o c (if lv >? 0 then lv - 1 else lv) r (if x =? c_NL then ln + 1 else ln)) as [[t r'] l'].
+      cbn [fst snd] in *. apply adv_cons. exact IH.
+    + specialize (IH lv (if x =? c_NL then ln + 1 else ln)).
+      destruct (nest_loop o c lv r (if x =? c_NL then ln + 1 else ln)) as [[t r'] l']. cbn [fst snd] in *.
+      apply adv_cons. exact IH.
+Qed.
+
+(* the opening character is stepped over by next(), which does not count: it must not be a line break *)
+Lemma get_token_nest_adv o c s ln : o <> 10 ->
+  adv s (snd (fst (get_token_nest o c s ln))) ln (snd (get_token_nest o c s ln)).
+Proof.
+  intros Ho. unfold get_token_nest. destruct (peek0 s =? o) eqn:E; [|apply nest_loop_adv].
+  destruct s as [|x r]; [apply nest_loop_adv|]. cbn [peek0 tl] in *.
+  apply (adv_trans _ r _ ln ln); [apply adv_skip; lia | apply nest_loop_adv].
+Qed.
+
+(* the '~' arm: the list stays valid, the reading never goes backwards, and the third component is the number of
+   line breaks of the text it stepped over *)
 Lemma read_definition_props sl r : sl_ok sl ->
-  sl_ok (fst (read_definition sl r)) /\ (length (snd (read_definition sl r)) <= length r)%nat.
+  sl_ok (fst (fst (read_definition sl r))) /\ (length (snd (fst (read_definition sl r))) <= length r)%nat.
 Proof.
   intros Hok. unfold read_definition.
   pose proof (skip_space_len r 0) as L1. destruct (skip_space r 0) as [s1 l1]. cbn [fst] in L1.
   destruct (negb (peek0 s1 =? c_LBRACE)); [cbn [fst snd]; split; [exact Hok | lia]|].
-  pose proof (get_token_nest_len c_LBRACE c_RBRACE s1 0) as L2.
-  destruct (get_token_nest c_LBRACE c_RBRACE s1 0) as [[name s2] l2]. cbn [fst snd] in L2.
-  pose proof (skip_space_len s2 0) as L3. destruct (skip_space s2 0) as [s3 l3]. cbn [fst] in L3.
+  pose proof (get_token_nest_len c_LBRACE c_RBRACE s1 l1) as L2.
+  destruct (get_token_nest c_LBRACE c_RBRACE s1 l1) as [[name s2] l2]. cbn [fst snd] in L2.
+  pose proof (skip_space_len s2 l2) as L3. destruct (skip_space s2 l2) as [s3 l3]. cbn [fst] in L3.
   assert (L4 : (length (if eq_char s3 c_EQ then tl s3 else s3) <= length s3)%nat).
   { destruct (eq_char s3 c_EQ); [destruct s3; cbn; lia | lia]. }
   set (s4 := if eq_char s3 c_EQ then tl s3 else s3) in *.
-  pose proof (skip_space_len s4 0) as L5. destruct (skip_space s4 0) as [s5 l5]. cbn [fst] in L5.
+  pose proof (skip_space_len s4 l3) as L5. destruct (skip_space s4 l3) as [s5 l5]. cbn [fst] in L5.
   destruct (negb (peek0 s5 =? c_LBRACE)); [cbn [fst snd]; split; [exact Hok | lia]|].
-  pose proof (get_token_nest_len c_LBRACE c_RBRACE s5 0) as L6.
-  destruct (get_token_nest c_LBRACE c_RBRACE s5 0) as [[value s6] l6]. cbn [fst snd] in L6.
+  pose proof (get_token_nest_len c_LBRACE c_RBRACE s5 l5) as L6.
+  destruct (get_token_nest c_LBRACE c_RBRACE s5 l5) as [[value s6] l6]. cbn [fst snd] in L6.
   destruct name as [|n0 name]; cbn [fst snd]; (split; [|lia]); [exact Hok|].
   apply set_item_ok; [exact Hok | discriminate].
 Qed.
+
+Lemma read_definition_adv sl r :
+  adv r (snd (fst (read_definition sl r))) 0 (snd (read_definition sl r)).
+Proof.
+  unfold read_definition.
+  pose proof (skip_space_adv r 0) as A1. destruct (skip_space r 0) as [s1 l1]. cbn [fst snd] in A1.
+  destruct (negb (peek0 s1 =? c_LBRACE)); [cbn [fst snd]; exact A1|].
+  assert (Hb : c_LBRACE <> 10) by (unfold c_LBRACE; lia).
+  pose proof (get_token_nest_adv c_LBRACE c_RBRACE s1 l1 Hb) as A2.
+  destruct (get_token_nest c_LBRACE c_RBRACE s1 l1) as [[name s2] l2]. cbn [fst snd] in A2.
+  pose proof (skip_space_adv s2 l2) as A3. destruct (skip_space s2 l2) as [s3 l3]. cbn [fst snd] in A3.
+  assert (A4 : adv s3 (if eq_char s3 c_EQ then tl s3 else s3) l3 l3).
+  { destruct s3 as [|x s3]; cbn [eq_char]; [apply adv_refl|].
+    destruct (x =? c_EQ) eqn:E; [|apply adv_refl]. cbn [tl]. apply adv_skip. unfold c_EQ in E. lia. }
+  set (s4 := if eq_char s3 c_EQ then tl s3 else s3) in *.
+  pose proof (skip_space_adv s4 l3) as A5. destruct (skip_space s4 l3) as [s5 l5]. cbn [fst snd] in A5.
+  assert (A15 : adv r s5 0 l5).
+  { apply (adv_trans _ s1 _ 0 l1); [exact A1|]. apply (adv_trans _ s2 _ l1 l2); [exact A2|].
+    apply (adv_trans _ s3 _ l2 l3); [exact A3|]. apply (adv_trans _ s4 _ l3 l3); [exact A4 | exact A5]. }
+  destruct (negb (peek0 s5 =? c_LBRACE)); [cbn [fst snd]; exact A15|].
+  pose proof (get_token_nest_adv c_LBRACE c_RBRACE s5 l5 Hb) as A6.
+  destruct (get_token_nest c_LBRACE c_RBRACE s5 l5) as [[value s6] l6]. cbn [fst snd] in A6.
+  assert (A16 : adv r s6 0 l6) by (apply (adv_trans _ s5 _ 0 l5); assumption).
+  destruct name; cbn [fst snd]; exact A16.
+Qed.
+
+(* ... stated without `adv`: the text read is `removed`, and the count is the number of its line breaks *)
+Theorem read_definition_lines sl r :
+  exists removed, r = removed ++ snd (fst (read_definition sl r)) /\
+    snd (read_definition sl r) = Z.of_nat (line_breaks removed).
+Proof. destruct (read_definition_adv sl r) as (k & E & L). exists k. split; [exact E | lia]. Qed.
 
 (* one iteration of the loop, with the recursive call abstracted *)
 Definition conv_body (rec : slist -> list ch -> res (list ch)) (sl : slist) (c : ch) (r : list ch) : res (list ch) :=
@@ -606,7 +738,8 @@ Definition conv_body (rec : slist -> list ch -> res (list ch)) (sl : slist) (c :
       do o <- rec sl s'; Ok (t ++ [c_STAR; c_SLASH] ++ o)
     else do o <- rec sl r; Ok (chz :: o)
   else if (chz =? c_TILDE) || (chz =? c_OVERLINE) then
-    let '(sl', s') := read_definition sl r in rec sl' s'
+    let '(sl', s', nl) := read_definition sl r in
+    do o <- rec sl' s'; Ok (repeat c_NL (Z.to_nat nl) ++ o)
   else
     match scan (sl_items sl) s with
     | Some it => do o <- rec sl (skipn (length (it_name it)) s); Ok (it_value it ++ o)
@@ -655,8 +788,8 @@ Proof.
       + exists sl, r, [zen2han c]. split; [exact Hok|]. split; [lia | reflexivity]. }
   destruct ((zen2han c =? c_TILDE) || (zen2han c =? c_OVERLINE)) eqn:E3.
   { destruct (read_definition_props sl r Hok) as [A B].
-    destruct (read_definition sl r) as [sl' s']. cbn [fst snd] in A, B.
-    exists sl', s', []. split; [exact A|]. split; [exact B|]. intros rec. apply bind_id. }
+    destruct (read_definition sl r) as [[sl' s'] nl]. cbn [fst snd] in A, B.
+    exists sl', s', (repeat c_NL (Z.to_nat nl)). split; [exact A|]. split; [exact B|]. intros rec. reflexivity. }
   destruct (scan (sl_items sl) (c :: r)) as [it|] eqn:Es.
   - exists sl, (skipn (length (it_name it)) (c :: r)), (it_value it). split; [exact Hok|]. split; [|reflexivity].
     apply scan_some_in in Es. destruct Es as [Hin _].
@@ -1062,18 +1195,20 @@ Definition def_text (name value : list ch) : list ch :=
   [126; 123] ++ name ++ [125; 61; 123] ++ value ++ [125].
 
 Lemma nest_loop_flat x rest : brace_free x = true ->
-  forall ln, exists ln', nest_loop 123 125 1 (x ++ 125 :: rest) ln = (x, rest, ln').
+  forall ln, nest_loop 123 125 1 (x ++ 125 :: rest) ln = (x, rest, ln + Z.of_nat (line_breaks x)).
 Proof.
   induction x as [|c x IH]; intros Hb ln.
   - cbn [app nest_loop]. change (125 =? 123) with false. change (125 =? 125) with true. cbn match.
-    eexists. reflexivity.
+    change (125 =? c_NL) with false. cbn match.
+    change ((if 1 >? 0 then 1 - 1 else 1) =? 0) with true. cbn match. f_equal. change (line_breaks []) with O. lia.
   - cbn [brace_free forallb] in Hb. apply andb_prop in Hb. destruct Hb as [Hc Hb].
     cbn [app nest_loop]. replace (c =? 123) with false by lia. replace (c =? 125) with false by lia.
-    destruct (IH Hb (if c =? c_NL then ln + 1 else ln)) as [ln' E]. rewrite E. eexists. reflexivity.
+    rewrite (IH Hb (if c =? c_NL then ln + 1 else ln)). f_equal.
+    rewrite line_breaks_cons. destruct (c =? c_NL); lia.
 Qed.
 
 Lemma get_token_nest_flat x rest ln : brace_free x = true ->
-  exists ln', get_token_nest c_LBRACE c_RBRACE (123 :: x ++ 125 :: rest) ln = (x, rest, ln').
+  get_token_nest c_LBRACE c_RBRACE (123 :: x ++ 125 :: rest) ln = (x, rest, ln + Z.of_nat (line_breaks x)).
 Proof.
   intros Hb. unfold get_token_nest. cbn [peek0 tl]. change (123 =? c_LBRACE) with true. cbn match.
   apply nest_loop_flat. exact Hb.
@@ -1086,17 +1221,22 @@ Proof.
   replace (c =? c_SLASH) with false by (unfold c_SLASH; lia). reflexivity.
 Qed.
 
+(* the canonical form ~{name}={value}: the text read is the whole definition, the count is the number of line
+   breaks inside name and value *)
 Lemma read_definition_canonical sl name value r :
   name <> [] -> brace_free name = true -> brace_free value = true ->
   read_definition sl ((123 :: name ++ 125 :: 61 :: 123 :: value ++ 125 :: r))
-  = (sort_items (set_item name value sl), r).
+  = (sort_items (set_item name value sl), r, Z.of_nat (line_breaks (name ++ value))).
 Proof.
   intros Hne Hn Hv. unfold read_definition.
   rewrite skip_space_stop by lia. cbn [peek0]. change (negb (123 =? c_LBRACE)) with false. cbn match.
-  destruct (get_token_nest_flat name (61 :: 123 :: value ++ 125 :: r) 0 Hn) as [l1 E1]. rewrite E1.
+  rewrite (get_token_nest_flat name (61 :: 123 :: value ++ 125 :: r) 0 Hn).
   rewrite skip_space_stop by lia. cbn [eq_char tl]. change (61 =? c_EQ) with true. cbn match.
   rewrite skip_space_stop by lia. cbn [peek0]. change (negb (123 =? c_LBRACE)) with false. cbn match.
-  destruct (get_token_nest_flat value r 0 Hv) as [l2 E2]. rewrite E2.
+  rewrite (get_token_nest_flat value r _ Hv).
+  rewrite line_breaks_app.
+  replace (0 + Z.of_nat (line_breaks name) + Z.of_nat (line_breaks value))
+    with (Z.of_nat (line_breaks name + line_breaks value)) by lia.
   destruct name; [congruence | reflexivity].
 Qed.
 
@@ -1106,22 +1246,68 @@ Proof.
   split; apply Permutation_in; [|apply Permutation_sym]; apply sort_desc_perm.
 Qed.
 
+Lemma tilde_arm f sl c r : sl_ok sl -> zen2han c = 126 \/ zen2han c = 8254 -> (length (c :: r) < f)%nat ->
+  conv_loop f sl (c :: r) =
+  bind (conv_loop f (fst (fst (read_definition sl r))) (snd (fst (read_definition sl r))))
+       (fun o => Ok (repeat 10 (Z.to_nat (snd (read_definition sl r))) ++ o)).
+Proof.
+  intros Hok Hc Hf. rewrite conv_unfold by assumption. unfold conv_body.
+  replace (zen2han c =? c_LBRACE) with false by (unfold c_LBRACE; lia).
+  replace (zen2han c =? c_SLASH) with false by (unfold c_SLASH; lia).
+  replace ((zen2han c =? c_TILDE) || (zen2han c =? c_OVERLINE)) with true by (unfold c_TILDE, c_OVERLINE; lia).
+  destruct (read_definition sl r) as [[sl' s'] nl]. reflexivity.
+Qed.
+
 Theorem conv_user_def f sl name value r :
   sl_ok sl -> name <> [] -> brace_free name = true -> brace_free value = true ->
   (length (def_text name value ++ r) < f)%nat ->
   let sl' := sort_items (set_item name value sl) in
-  conv_loop f sl (def_text name value ++ r) = conv_loop f sl' r /\ sl_ok sl' /\
+  conv_loop f sl (def_text name value ++ r)
+  = bind (conv_loop f sl' r) (fun o => Ok (repeat 10 (line_breaks (name ++ value)) ++ o)) /\ sl_ok sl' /\
   forall s, scan (sl_items sl') s = longest_match (define name value (sl_items sl)) s.
 Proof.
   intros Hok Hne Hn Hv Hf sl'. split; [|split].
   - unfold def_text in *. rewrite <- !app_assoc in *. cbn [app] in *.
-    rewrite conv_unfold by assumption. unfold conv_body.
-    change (zen2han 126) with 126. change (126 =? c_LBRACE) with false. change (126 =? c_SLASH) with false.
-    change ((126 =? c_TILDE) || (126 =? c_OVERLINE)) with true. cbn match.
-    rewrite read_definition_canonical by assumption. reflexivity.
+    rewrite tilde_arm; [|exact Hok | left; reflexivity | exact Hf].
+    rewrite read_definition_canonical by assumption. cbn [fst snd]. rewrite Nat2Z.id. reflexivity.
   - apply set_item_ok; assumption.
   - intros s. apply scan_is_longest_match; [apply (set_item_ok name value sl Hok Hne)|].
     intros e. unfold sl'. rewrite sort_items_in, set_item_items. reflexivity.
+Qed.
+
+(* a definition written on one line emits nothing (what was true of every definition before the repair) *)
+Corollary conv_user_def_one_line f sl name value r :
+  sl_ok sl -> name <> [] -> brace_free name = true -> brace_free value = true ->
+  ~ In 10 name -> ~ In 10 value ->
+  (length (def_text name value ++ r) < f)%nat ->
+  conv_loop f sl (def_text name value ++ r) = conv_loop f (sort_items (set_item name value sl)) r.
+Proof.
+  intros Hok Hne Hn Hv N1 N2 Hf.
+  destruct (conv_user_def f sl name value r Hok Hne Hn Hv Hf) as [E _]. rewrite E.
+  rewrite line_breaks_none; [|intros H; apply in_app_or in H; tauto].
+  cbn [repeat]. symmetry. apply bind_id.
+Qed.
+
+(* the '~' arm, however it ends: what it writes is exactly the line breaks of the text it removes *)
+Theorem definition_keeps_line_count f sl c r :
+  sl_ok sl -> zen2han c = 126 \/ zen2han c = 8254 -> (length (c :: r) < f)%nat ->
+  exists sl' removed rest out,
+    c :: r = removed ++ rest /\ sl' = fst (fst (read_definition sl r)) /\ rest = snd (fst (read_definition sl r)) /\
+    sl_ok sl' /\
+    conv_loop f sl (c :: r) = bind (conv_loop f sl' rest) (fun o => Ok (out ++ o)) /\
+    out = definition_residue removed /\ line_breaks out = line_breaks removed.
+Proof.
+  intros Hok Hc Hf. destruct (read_definition_lines sl r) as (k & E & L).
+  assert (Hc10 : c <> 10).
+  { intros ->. change (zen2han 10) with 10 in Hc. lia. }
+  assert (Hk : line_breaks (c :: k) = line_breaks k).
+  { apply Nat2Z.inj. rewrite line_breaks_cons. replace (c =? c_NL) with false by (unfold c_NL; lia). lia. }
+  exists (fst (fst (read_definition sl r))), (c :: k), (snd (fst (read_definition sl r))), (repeat 10 (line_breaks k)).
+  split; [cbn [app]; f_equal; exact E|]. split; [reflexivity|]. split; [reflexivity|].
+  split; [apply read_definition_props; exact Hok|].
+  split; [rewrite tilde_arm by assumption; rewrite L, Nat2Z.id; reflexivity|].
+  split; [unfold definition_residue; rewrite Hk; reflexivity|].
+  rewrite line_breaks_repeat. symmetry. exact Hk.
 Qed.
 
 (* ------------------------------------------------------------------------------------------ *)
@@ -1163,7 +1349,7 @@ Proof. vm_compute. reflexivity. Qed.
 Theorem sorted_invariant :
   sl_ok init_items /\
   (forall sl name value, sl_ok sl -> name <> [] -> sl_ok (sort_items (set_item name value sl))) /\
-  (forall sl r, sl_ok sl -> sl_ok (fst (read_definition sl r))) /\
+  (forall sl r, sl_ok sl -> sl_ok (fst (fst (read_definition sl r)))) /\
   (forall l l', Sorted key_ge l' -> (forall k, with_key k l' = with_key k l) -> l' = sort_desc l).
 Proof.
   split; [exact init_items_ok|]. split; [intros; apply set_item_ok; assumption|].
